@@ -4,7 +4,7 @@ from __future__ import annotations
 
 import numpy as np
 
-from .. import gen, monitors
+from .. import derive, gen, monitors
 
 PID = "C15"
 ANCHORS = ["roc_curve.py:roc", "roc_curve.py:_find_support_thresholds", "roc_curve.py:ROCCurve.tpr", "roc_curve.py:ROCCurve.tnr"]
@@ -43,7 +43,8 @@ def cases(ctx):
             kw = {k: [float(x) for x in v] for k, v in kw.items()}
         nbp = rng.choice([-1, 1, 2, 3, 10, 11, 100])
         yield {"pos": pos, "neg": neg, "ep": ep, "en": en, "sc": sc, "ec": ec, "kind": kind, "kw": kw, "nb_points": None if nbp < 0 else int(nbp),
-               "x_axis": str(rng.choice(monitors.X_AXES)), "pkg": bool(rng.random() < 0.5)}
+               "x_axis": str(rng.choice(monitors.X_AXES)), "pkg": bool(rng.random() < 0.5),
+               "via": str(rng.choice(derive.VIAS)), "_seed": int(rng.integers(1 << 31))}
 
 
 def execute(ctx, case):
@@ -51,7 +52,8 @@ def execute(ctx, case):
     from score_analysis import Scores
     from score_analysis import roc_curve as RC
 
-    s = Scores(case["pos"], case["neg"], nb_easy_pos=case["ep"], nb_easy_neg=case["en"], score_class=case["sc"], equal_class=case["ec"])
+    with monitors.oracle_scope_ctx():
+        s = derive.build(case["pos"], case["neg"], case["ep"], case["en"], case["sc"], case["ec"], case.get("via", "ctor"), case.get("_seed", 0))
     fn = score_analysis.roc if case["pkg"] else RC.roc
     fn(s, nb_points=case["nb_points"], x_axis=case["x_axis"], **case["kw"])  # judged by M-roc
     ctx.sess.sig_counts[("case", case["sc"], case["ec"], case["kind"], tuple(sorted(case["kw"])), case["nb_points"], case["x_axis"])] += 1
